@@ -31,6 +31,11 @@ def defect_configs():
     d["token"] = {"parameters": {"x": "%unknown(1)%", "y": "%%%"}}
     d["format"] = {"services": {"a": {"constructor": "func"}}}
     d["empty"] = {}
+    # the same diagnostic text twice (one service referring twice to the same missing parameter / service): the numbered list
+    # still has one entry per error of the failing step
+    d["same-error-twice"] = {"services": {"a": {"constructor": "NewA", "arguments": ["%nope%", "%nope%"], "fields": {"F": "%nope%"}},
+                                         "b": {"constructor": "NewA", "arguments": ["@zz", "@zz"]}}}
+    d["same-grammar-error-twice"] = {"services": {"a": {"constructor": "NewA", "tags": ["t t", "t t"], "calls": [["bad name"], ["bad name"]]}}}
     return d
 
 
@@ -62,6 +67,13 @@ def scenarios(ctx):
         ("valid+unreadable", {"cfg/a.yaml": v, "cfg/b.yaml": "<dir>"}, ["cfg/*.yaml"]),
         ("glob-order", {"cfg/b.yaml": gen.yaml_doc({"parameters": {"p": 2}}), "cfg/a/../z.yaml": "{}", "cfg/a.yaml": v}, ["cfg/*.yaml"]),
         ("unclean-pattern", {"cfg/a.yaml": v}, ["./cfg//a.yaml"]),
+        # one pattern, several files, a failing one anywhere in the read order: the step fails whatever follows it
+        ("broken-then-ok", {"cfg/10.yaml": "services: [1, 2\n", "cfg/20.yaml": v}, ["cfg/*.yaml"]),
+        ("ok-then-broken", {"cfg/10.yaml": v, "cfg/20.yaml": "services: [1, 2\n"}, ["cfg/*.yaml"]),
+        ("broken-ok-ok", {"cfg/10.yaml": "parameters: {a: [\n", "cfg/20.yaml": v, "cfg/30.yaml": "{}"}, ["cfg/*.yaml"]),
+        ("unreadable-then-ok", {"cfg/10.yaml": "<dir>", "cfg/20.yaml": v}, ["cfg/*.yaml"]),
+        ("bad-shape-then-ok", {"cfg/10.yaml": "services: {a: {constructor: NewA, scope: bogus}}\n", "cfg/20.yaml": v}, ["cfg/*.yaml"]),
+        ("broken-first-pattern", {"cfg/10.yaml": "services: [1, 2\n", "cfg/20.yaml": v}, ["cfg/10.yaml", "cfg/20.yaml"]),
     ]
     for name, files, pats in faults:
         for pre in (["present", "absent"] if ctx.quick else pres):
